@@ -10,4 +10,8 @@ func verifYield(site string) {}
 
 func verifBeforeLock(mu *sync.Mutex) {}
 
+func verifBeforePoolLock(mu *sync.RWMutex, write bool) {}
+
+func verifBeforeResetLock(mu *sync.Mutex) {}
+
 func verifOrderConns(conns []*connection) []*connection { return conns }
